@@ -448,6 +448,13 @@ fn gen_store(r: &mut Rng) -> Vec<Resource> {
             2 => ResourceType::Mime(MimeType::ImageGif),
             3 => ResourceType::Mime(MimeType::TextCss),
             4 => ResourceType::Mime(MimeType::Unknown),
+            5 => match r.below(5) {
+                0 => ResourceType::Mime(MimeType::ApplicationJson),
+                1 => ResourceType::Mime(MimeType::TextPlain),
+                2 => ResourceType::Mime(MimeType::TextHtml),
+                3 => ResourceType::Mime(MimeType::TextXml),
+                _ => ResourceType::Mime(MimeType::ImagePng),
+            },
             _ => ResourceType::Mime(MimeType::ApplicationJavascript),
         };
         let perm = if r.pct(20) { 1 + r.below(3) as u8 } else { 0 };
@@ -455,6 +462,16 @@ fn gen_store(r: &mut Rng) -> Vec<Resource> {
         let mut res = mk_resource(&name, &al, kind, &format!("body-of-{}-{}", name, r.below(100)), perm);
         if r.pct(10) {
             res.dependencies = vec!["fn.js".to_string()];
+        }
+        if r.pct(15) {
+            // content that is base64 of bytes which are not text: fine for an image, refused for every textual kind
+            use base64::{engine::Engine as _, prelude::BASE64_STANDARD};
+            let raw: Vec<u8> = match r.below(3) {
+                0 => vec![b'{', b'"', b'k', b'"', b':', b'"', 0xff, 0xfe, b'"', b'}'],
+                1 => vec![0xc3, 0x28, b'a'],
+                _ => vec![b'o', b'k', 0x80],
+            };
+            res.content = BASE64_STANDARD.encode(&raw);
         }
         v.push(res);
     }
